@@ -440,7 +440,12 @@ struct Value {
             // decode failed
             return;
         }
-        // they are now prefixed with a 0x00; rip that out
+        // they are now prefixed with a version byte; only version 0 (pay to pubkey hash) is a script we know how to build
+        if (data[0] != 0) {
+            fprintf(stderr, "unsupported address version %u (only pay-to-pubkey-hash addresses, version 0, are supported)\n", data[0]);
+            data.clear();
+            return;
+        }
         data.erase(data.begin());
         // wrap in appropriate script fluff
         CScript s;
